@@ -4,6 +4,7 @@
    driver only reads and prints numbers. *)
 From Coq Require Import FMapPositive.
 From Lace Require Import Word Machine Isa Vm RunProofs.
+From Lace Require Asm.
 
 (* ------------------------------------------------------------------ *)
 (** * Helpers *)
@@ -47,7 +48,7 @@ Definition mem_diff (m0 m : mem) : list N :=
 
 Definition enc_state (st0 st : state) : list N :=
   [s_pc st; s_cc st] ++ regs_list (s_regs st)
-  ++ [N.of_nat (length (s_out st))] ++ rev (s_out st)
+  ++ [N.of_nat (length (s_out st))] ++ rev_append (s_out st) []
   ++ [N.of_nat (length (s_inp st))]
   ++ mem_diff (s_mem st0) (s_mem st).
 
@@ -139,3 +140,48 @@ Definition run_c03 (spec : bool) (args : list N) : list (list N) :=
     | LoadExit c => [[5; c]]
     | Loaded st => [enc_vm (vm_run feat fuel st [])]
     end.
+
+(* ------------------------------------------------------------------ *)
+(** * ASM: assemble a sequence of sources in one process (C01, C04, C05, C18, C19).
+
+    case  = feat nsrc (reset nchars char*nchars)*nsrc
+    lines = one per source:
+            0 has_orig orig nwords word* nbps (addr predefined)* nspans (offs len)*     accepted
+            1 diag span_start span_len                                                   rejected
+            2 why                                                                        panic *)
+
+Definition enc_diag (d : Asm.diag) : N :=
+  match d with
+  | Asm.E_lex_dir => 0 | Asm.E_lex_str => 1 | Asm.E_lex_bad_lit => 2 | Asm.E_lex_unknown => 3
+  | Asm.E_lex_stack => 4 | Asm.E_pre_bad_lit => 5 | Asm.E_pre_no_str => 6 | Asm.E_dup_label => 7
+  | Asm.E_unexpected => 8 | Asm.E_eof => 9 | Asm.E_lit_range => 8 | Asm.E_too_long => 11
+  | Asm.E_orig_twice => 12 | Asm.E_label_not_found => 13 | Asm.E_offset_range => 14
+  end.
+
+Definition enc_image (r : Asm.res Asm.image) : list N :=
+  match r with
+  | Asm.Ok im =>
+      (0 :: match Asm.i_orig im with Some o => 1 :: o :: nil | None => 0 :: 0 :: nil end)
+      ++ [N.of_nat (length (Asm.i_words im))] ++ Asm.i_words im
+      ++ [N.of_nat (length (Asm.i_bps im))]
+      ++ flat_map (fun b : N * bool => [fst b; if snd b then 1 else 0]) (Asm.i_bps im)
+      ++ [N.of_nat (length (Asm.i_spans im))]
+      ++ flat_map (fun s : N * N => [fst s; snd s]) (Asm.i_spans im)
+  | Asm.Err d a n => [1; enc_diag d; a; n]
+  | Asm.Bad w => [2; w]
+  end.
+
+Fixpoint run_asm_seq (feat : bool) (n : nat) (args : list N) (sym : Asm.symtab) : list (list N) :=
+  match n with
+  | O => []
+  | S n' =>
+      let reset := negb (hdN args =? 0) in
+      let nch := hdN (tlN args) in
+      let '(src, rest) := take (N.to_nat nch) (tlN (tlN args)) in
+      let '(r, sym') := Asm.assemble feat (if reset then [] else sym) src in
+      enc_image r :: run_asm_seq feat n' rest sym'
+  end.
+
+Definition run_asm (args : list N) : list (list N) :=
+  let feat := negb (hdN args =? 0) in
+  run_asm_seq feat (N.to_nat (hdN (tlN args))) (tlN (tlN args)) [].
